@@ -23,6 +23,11 @@ package messages
 //@ property C21
 //@ ensures only-peerswap-types: result1 == nil ==> (result0 >= 42069 && result0 <= 42085 && result0%2 == 1)
 //@ ensures rejected-is-zero: result1 != nil ==> result0 == 0
+// the type is the number the text denotes in base 16 (strconv.ParseInt: a
+// deterministic function of text, base and size), and a peerswap number that
+// parses is accepted
+//@ ensures is-the-hex-value: result1 == nil ==> (nth(1, strconv.ParseInt(msgType, 16, 64)) == nil && int64(result0) == nth(0, strconv.ParseInt(msgType, 16, 64)))
+//@ ensures known-types-accepted: (nth(1, strconv.ParseInt(msgType, 16, 64)) == nil && nth(0, strconv.ParseInt(msgType, 16, 64)) >= 42069 && nth(0, strconv.ParseInt(msgType, 16, 64)) <= 42085 && nth(0, strconv.ParseInt(msgType, 16, 64)) % 2 == 1) ==> result1 == nil
 //@ assigns nothing
 
 // C22: a retransmitter is started only after the manager registered it (so that
